@@ -324,13 +324,13 @@ class WbGen:
     # ------------------------------------------------------------------ expressions over what is in scope
     def value_for(self, dom):
         r = self.rng
-        kind = r.choice(ANY_KINDS) if dom == "any" else dom
+        kind = r.choice(ANY_KINDS) if dom == "any" else "str" if dom == "rowid" else dom
         return copy.deepcopy(r.choice(POOL[kind]))
 
     def expr_for(self, dom, scope, exact_only=False):
         """an expression whose value lies in the domain: a literal, a variable in scope, or a computation on one"""
         r = self.rng
-        cands = [(n, t, ex) for n, t, ex in scope if (dom == "any" and t != "sheet") or t == dom]
+        cands = [(n, t, ex) for n, t, ex in scope if (dom == "any" and t != "sheet") or t == dom or (dom == "str" and t == "rowid")]
         if exact_only:
             cands = [c for c in cands if c[2]]
         if cands and r.random() < 0.6:
@@ -448,6 +448,10 @@ class WbGen:
         if x < 0.88:
             vals = [self.value_for("list") for _ in range(r.choice([1, 2]))]
             return ("native", lit(vals)), "list", True
+        if x < 0.94:
+            ids = [row["ID"] for row in self.data["bdata"][1]]
+            vals = [r.choice(ids) for _ in range(r.choice([1, 2, 3]))]
+            return r.choice([("raw", sheetgen.join_list(vals)), ("native", lit(vals))]), "rowid", True
         vals = [r.choice(["p", "q", "0", "False", "b1", "b2"]) for _ in range(r.choice([1, 2, 3]))]
         return ("raw", sheetgen.join_list(vals)), "str", True
 
@@ -490,6 +494,13 @@ class WbGen:
                 dflt = self.text_row(scope, sub + "d", frm=("raw", wid))
                 dflt[1]["type"] = "send_message"
                 out.append(dflt)
+            elif can_insert and x > 0.97:
+                # an insert row that is switched off: its cells (an undefined name among them) are never evaluated
+                it = self.gen_insert(scope, level, sub)
+                it[1]["inc"] = ("raw", r.choice(["FALSE", "false", "False"]))
+                it[5]["cell"] = ("native", ("list", [V("undefined_variable_" + sub)]))
+                it[5]["form"] = "never-evaluated"
+                out.append(it)
             elif can_insert:
                 out.append(self.gen_insert(scope, level, sub))
             else:
@@ -556,9 +567,12 @@ class WbGen:
         if tp["uses_row"] or r.random() < 0.15:
             ds = "bdata"
             ids = [row["ID"] for row in self.data["bdata"][1]]
-            strs = [n for n, t, ex in scope if t == "str" and ex and n.startswith("v")]
+            rowids = [n for n, t, ex in scope if t == "rowid"]
             rid = ("raw", r.choice(ids))
-            if r.random() < 0.3:
+            if rowids and r.random() < 0.7:
+                v = V(r.choice(rowids))              # the data row changes with the iteration
+                rid = r.choice([T(v), ("native", v)])
+            elif r.random() < 0.3:
                 rid = r.choice([T(("str", r.choice(ids))), ("native", ("str", r.choice(ids)))])
         head = dict(type="insert_as_block", id=("raw", tag) if r.random() < 0.3 and not any(s[0].startswith(("v", "i")) for s in scope) else None,
                     frm=None, cond="", inc=self.inc_cell(scope) if r.random() < 0.15 else None, main=("raw", tp["name"]), save_name="")
@@ -1010,8 +1024,9 @@ def judge(ctx, wb, dist, nontrivial, samples, spy_budget):
         if inst["depth"] > 1:
             dist["insertions_by_an_inserted_template"] += 1
     if r1[0] != "ok":
-        v.failing_input("insert-as-block", f"the workbook is rejected ({r1[1]}: {r1[2][:200]}) while its desugared form has a reading: " +
-                        (describe(d.instances[0]) if d.instances else ""), rep)
+        sus = [i for i in d.instances if any(falsy_object(a) for a in i["args"])] or d.instances
+        v.failing_input("insert-as-block", f"the workbook is rejected ({r1[1]}: {r1[2][:200]}) while its desugared form has a reading; e.g. " +
+                        (describe(sus[0]) if sus else ""), rep)
         return
     r2 = flowutil.compile_workbook(des_sheets)
     bad = check_flows(m, r1[1]["flows"][0], r2, des, d.texts, d.instances)
@@ -1189,6 +1204,214 @@ def directed(rng):
 
 
 # =====================================================================================================================
+# the binding alone: histories of map_template_arguments_to_context calls on ONE long-lived ContentIndexParser, with
+# argument lists of OBJECTS (what insert_as_block rows deliver), against the reference binding and the model
+# =====================================================================================================================
+def make_parser(data):
+    """a real ContentIndexParser built by the real reader from a scratch CSV folder holding the data sheets"""
+    import os
+    import shutil
+    import tempfile
+    from rpft.converters import get_content_index_parser
+    d = tempfile.mkdtemp(prefix="c03bind")
+    try:
+        flowutil.write_csv(os.path.join(d, "content_index.csv"), flowutil.INDEX_HEADERS, [dict(type="data_sheet", sheet_name=n) for n in data])
+        for n, (cols, rows) in data.items():
+            h, cells = data_sheet_csv(cols, rows)
+            flowutil.write_csv(os.path.join(d, n + ".csv"), h, cells)
+        r = run_cli_mode(get_content_index_parser, [d], "csv", None, [])
+        if r[0] != "ok":
+            raise RuntimeError(f"cannot build a ContentIndexParser: {r}")
+        return r[1]
+    finally:
+        shutil.rmtree(d, ignore_errors=True)
+
+
+def reference_binding(defs, args, row, data):
+    """('ok', context) | ('err', why): written from the property text (positional, the empty string takes the default, a sheet
+    argument is bound to the rows of the named data sheet) and the documented stops (doubly defined, required missing)"""
+    cenv = dict(row)
+    for i, d in enumerate(defs):
+        a = args[i] if i < len(args) else ""
+        if d["name"] in cenv:
+            return ("err", "doubly")
+        v = d["default"] if (isinstance(a, str) and a == "") else a
+        if isinstance(v, str) and v == "":
+            return ("err", "required")
+        if d["type"] == "sheet":
+            try:
+                hash(v)
+            except TypeError:
+                return ("err", "unhashable")
+            if not isinstance(v, str) or v not in data:
+                return ("err", "unknown-sheet")
+            v = Rows((r["ID"], dict(r)) for r in data[v][1])
+        cenv[d["name"]] = v
+    return ("ok", cenv)
+
+
+def gen_binding_case(rng, g):
+    names = rng.sample(["a1", "a2", "a3", "s1", "b"], rng.choice([0, 1, 1, 2, 2, 3, 4]))
+    defs = []
+    for nm in names:
+        if rng.random() < 0.2:
+            defs.append(dict(name=nm, type="sheet", default=rng.choice(["", "lookup", "bdata"])))
+        else:
+            defs.append(dict(name=nm, type="", default=rng.choice(["", "", "dflt", "1", "0", "False"])))
+    args = []
+    for d in defs:
+        x = rng.random()
+        if d["type"] == "sheet":
+            args.append("" if (d["default"] and x < 0.5) else rng.choice(["lookup", "bdata"]) if x < 0.93 else rng.choice([0, None, ["lookup"], "nosuch", ("lookup",)]))
+        elif x < 0.2 and d["default"]:
+            args.append("")
+        elif x < 0.23:
+            args.append("")
+        else:
+            args.append(g.value_for("any"))
+    if rng.random() < 0.25:
+        args = args[:rng.randrange(len(args) + 1)]
+    elif rng.random() < 0.2:
+        args += [g.value_for("any") if rng.random() < 0.7 else "" for _ in range(rng.choice([1, 2]))]
+    row = {}
+    if rng.random() < 0.5:
+        row = {k: copy.deepcopy(v) for k, v in rng.choice(g.data["bdata"][1]).items()}
+    if defs and row and rng.random() < 0.05:
+        defs[rng.randrange(len(defs))]["name"] = rng.choice(["bw", "bn"])
+    if len(defs) >= 2 and rng.random() < 0.03:
+        defs[-1]["name"] = defs[0]["name"]
+    return defs, args, row
+
+
+class WarnSpy:
+    def __enter__(self):
+        import logging
+        self.msgs = []
+        spy = self
+
+        class H(logging.Handler):
+            def emit(self, record):
+                if record.levelno == logging.WARNING:
+                    spy.msgs.append(record.getMessage())
+        self.h = H()
+        self.lg = logging.getLogger("main")
+        self.lg.addHandler(self.h)
+        return self
+
+    def __exit__(self, *a):
+        self.lg.removeHandler(self.h)
+        return False
+
+
+def impl_binding_result(r):
+    if r[0] == "ok":
+        return ("ok", {k: plain_value(x) for k, x in r[1].items()})
+    if r[1] == "critical":
+        return ("err", "doubly" if "doubly defined" in r[2] else "required" if "Required template argument" in r[2] else "critical:" + r[2][:60])
+    return ("err", {"KeyError": "unknown-sheet", "TypeError": "unhashable"}.get(r[1], r[1]))
+
+
+def same_binding(a, b):
+    if a[0] != b[0]:
+        return False
+    if a[0] == "err":
+        return a[1] == b[1]
+    return list(a[1].keys()) == list(b[1].keys()) and all(typed_eq(a[1][k], b[1][k]) for k in a[1])
+
+
+def binding_stream(ctx, n):
+    import c16
+    from common import enc_str, dec_str
+    from rpft.parsers.creation.contentindexrowmodel import TemplateArgument
+    rng, m, v = ctx.rng, ctx.model, ctx.v
+    g = WbGen(rng)
+    g.gen_data()
+    parser = make_parser(g.data)              # ONE parser for the whole history
+    sheets_all = {nm: {r["ID"]: dict(r) for r in rows} for nm, (cols, rows) in g.data.items()}
+    dist = {"calls_on_one_parser": 0, "ok": 0, "errors": {}, "falsy_object_arguments": 0, "too_many_warning": 0, "model_equal": 0,
+            "model_outside_language": 0, "argument_classes": {}}
+    nontrivial = set()
+    for _ in range(n):
+        defs, args, row = gen_binding_case(rng, g)
+        v.coverage["evaluations"] += 1
+        dist["calls_on_one_parser"] += 1
+        tdefs = [TemplateArgument(name=d["name"], type=d["type"], default_value=d["default"]) for d in defs]
+        with WarnSpy() as ws:
+            r = run_cli_mode(parser.map_template_arguments_to_context, tdefs, copy.deepcopy(args), dict(row))
+        impl = impl_binding_result(r)
+        warned = any("Too many arguments" in x for x in ws.msgs)
+        ref = reference_binding(defs, args, row, g.data)
+        for i, d in enumerate(defs):
+            a = args[i] if i < len(args) else ""
+            kk = value_class(a) + ("/default" if d["default"] else "/required") + ("/sheet" if d["type"] == "sheet" else "")
+            dist["argument_classes"][kk] = dist["argument_classes"].get(kk, 0) + 1
+            dist["falsy_object_arguments"] += falsy_object(a)
+        if ref[0] == "ok":
+            dist["ok"] += 1
+        else:
+            dist["errors"][ref[1]] = dist["errors"].get(ref[1], 0) + 1
+        dist["too_many_warning"] += warned
+        rep = dict(fn="binding", defs=defs, args=repr(args), row=repr(row), data={k: [dict(r) for r in rows] for k, (c, rows) in g.data.items()})
+        shown = f"declared {[(d['name'], d['type'], d['default']) for d in defs]}, arguments {args!r}, data row {row!r}"
+        if (ref[0] == "ok") != (impl[0] == "ok"):
+            v.failing_input("insert-as-block", f"template arguments ({shown}): the reference binding gives {ref!r}, map_template_arguments_to_context {impl!r} "
+                            f"(call {dist['calls_on_one_parser']} on one ContentIndexParser)", rep)
+            continue
+        if ref[0] == "ok" and not same_binding(ref, impl):
+            bad = next((k for k in ref[1] if k not in impl[1] or not typed_eq(ref[1][k], impl[1][k])), None)
+            v.failing_input("insert-as-block", f"template arguments ({shown}): `{bad}` must be bound to {ref[1].get(bad)!r} (the argument at its position; "
+                            f"the declared default only for the empty string), map_template_arguments_to_context binds {impl[1].get(bad)!r} "
+                            f"(call {dist['calls_on_one_parser']} on one ContentIndexParser)", rep)
+            continue
+        if defs and args:
+            nontrivial.add(repr(([(d["type"], bool(d["default"])) for d in defs], [value_class(a) for a in args], bool(row))))
+        if m is None:
+            continue
+        if not model_value_ok(args) or not model_value_ok(list(row.values())):
+            dist["model_outside_language"] += 1
+            continue
+        e_defs = "(" + " ".join(f"({enc_str(d['name'])} {enc_str(d['type'])} {enc_str(d['default'])})" for d in defs) + ")"
+        e_sheets = "(" + " ".join(f"({enc_str(nm)} {c16.enc_value(to_c16(rows))})" for nm, rows in sheets_all.items()) + ")"
+        e_row = c16.enc_ctx({k: to_c16(x) for k, x in row.items()})
+        e_args = "(" + " ".join(c16.enc_value(to_c16(a)) for a in args) + ")"
+        out = parse_sexp(m.ask(f"(203 2 {e_defs} {e_sheets} {e_row} {e_args})"))
+        if out == [999998]:
+            ctx.disagree("binding: the model rejects the request", rep, "BADINPUT", "")
+            continue
+        if out[0] == 999999:
+            mo = ("err", {1: "doubly", 2: "required", 3: "unknown-sheet", 4: "unhashable"}.get(out[1], f"code {out[1]}"))
+            mw = None
+        else:
+            mo = ("ok", {dec_str(k): rows_of(from_c16(c16.dec_value(x)), sheets_all) for k, x in out[0]})
+            mw = bool(out[1])
+        if not same_binding(mo, (impl[0], {k: sheets_all_rows(x) for k, x in impl[1].items()}) if impl[0] == "ok" else impl):
+            ctx.disagree("binding: bind_args (Comp/InsertArgs.v) vs map_template_arguments_to_context", rep, repr(mo)[:600], repr(impl)[:600])
+            continue
+        if mw is not None and mw != warned:
+            ctx.disagree("binding: 'Too many arguments' warning, model vs implementation", rep, repr(mw), repr(warned))
+            continue
+        dist["model_equal"] += 1
+    dist["argument_classes"] = dict(sorted(dist["argument_classes"].items()))
+    ctx.stats["insert_argument_binding_history"] = dist
+    return nontrivial
+
+
+def rows_of(x, sheets_all):
+    return x
+
+
+def replay_binding(r):
+    from rpft.parsers.creation.contentindexrowmodel import TemplateArgument
+    data = {"bdata": (BDATA_COLS, r["data"]["bdata"]), "mdata": (MDATA_COLS, r["data"]["mdata"]), "lookup": (LOOKUP_COLS, r["data"]["lookup"])}
+    parser = make_parser(data)
+    args, row = ast.literal_eval(r["args"]), ast.literal_eval(r["row"])
+    tdefs = [TemplateArgument(name=d["name"], type=d["type"], default_value=d["default"]) for d in r["defs"]]
+    impl = impl_binding_result(run_cli_mode(parser.map_template_arguments_to_context, tdefs, copy.deepcopy(args), dict(row)))
+    ref = reference_binding(r["defs"], args, row, data)
+    return same_binding(ref, impl) if ref[0] == "ok" else impl[0] != "ok"
+
+
+# =====================================================================================================================
 def run(ctx, n):
     rng = ctx.rng
     dist = {"workbooks": 0, "reference_has_no_reading": 0, "expected_rejections": 0, "twins_equivalent": 0, "insertions": 0,
@@ -1205,12 +1428,15 @@ def run(ctx, n):
         judge(ctx, wb, dist, nontrivial, samples, spy_budget)
     dist["argument_classes"] = dict(sorted(dist["argument_classes"].items()))
     ctx.stats["insert_as_block_twins"] = dist
+    nontrivial |= {("binding", c) for c in binding_stream(ctx, n * 12)}
     return nontrivial, samples
 
 
 def replay(r):
     """True when the property holds on this input"""
     import common
+    if r.get("fn") == "binding":
+        return replay_binding(r)
     r1 = flowutil.compile_workbook(unpack(r["sugared"]))
     if r.get("desugared") is None:
         return r1[0] != "ok"
